@@ -368,6 +368,51 @@ pub mod qs {
         kani::cover!(which == 1 && p == 576);
     }
 
+    // Rear-coded lists within C09's bounds (zero or one string, concrete block
+    // size), every safe accessor with an arbitrary index / start position.
+    macro_rules! rcl_safety {
+        ($name:ident, $k:expr, $nonempty:expr) => {
+            #[kani::proof]
+            #[kani::unwind(8)]
+            pub fn $name() {
+                use lender::prelude::*;
+                use sux::dict::RearCodedListBuilder;
+                let mut b = RearCodedListBuilder::new($k);
+                let bytes: [u8; 2] = kani::any();
+                kani::assume(bytes[0] >= 1 && bytes[0] <= 127 && bytes[1] >= 1 && bytes[1] <= 127);
+                if $nonempty {
+                    b.push(unsafe { core::str::from_utf8_unchecked(&bytes) });
+                }
+                let l = b.build();
+                let n = if $nonempty { 1 } else { 0 };
+                let which: u8 = kani::any();
+                let i: usize = kani::any();
+                kani::cover!(which == 1 && i == n, "start position at the end");
+                if which == 0 {
+                    let mut out = Vec::new();
+                    if i < n {
+                        l.get_in_place(i, &mut out);
+                    }
+                    std::mem::forget(out);
+                } else if which == 1 {
+                    kani::assume(i <= n);
+                    let it = l.iter_from(i);
+                    let _ = it.len();
+                    std::mem::forget(it);
+                } else {
+                    kani::assume(i <= n);
+                    let mut it = l.lend_from(i);
+                    let _ = it.next();
+                    let _ = it.next();
+                    std::mem::forget(it);
+                }
+                std::mem::forget(l);
+            }
+        };
+    }
+    rcl_safety!(rcl_empty_k2, 2, false);
+    rcl_safety!(rcl_one_k1, 1, true);
+
     macro_rules! ef_safety {
         ($name:ident, $n:expr, $u:expr) => {
             pub mod $name {
